@@ -2,6 +2,7 @@ package main
 
 import (
 	"bytes"
+	"encoding/json"
 	"fmt"
 	"math"
 	"math/rand"
@@ -40,6 +41,13 @@ func TestCoqTerms(t *testing.T) {
 		for i := 0; i < 3; i++ {
 			check(coqVal(e.GT, genValue(rng, e.GT)), "gval")
 		}
+	}
+	// a recursive type: gtOf terminates with a back reference
+	rec := gtOf(reflect.TypeOf(recT{}))
+	check(rec.Coq(), "gtype")
+	check(coqVal(rec, reflect.ValueOf(recT{Next: &recT{}})), "gval")
+	if !strings.Contains(rec.Coq(), "TSelf") {
+		t.Errorf("recursive type printed without TSelf: %s", rec.Coq())
 	}
 	for _, g := range namedLeafTypes {
 		check(g.Coq(), "gtype")
@@ -100,6 +108,12 @@ func TestCoqTerms(t *testing.T) {
 	t.Logf("coqc accepted %d Check lines", strings.Count(sb.String(), "Check ("))
 }
 
+type recT struct {
+	V    int64
+	Next *recT
+	Kids []recT
+}
+
 // ---- GT <-> reflect ------------------------------------------------------------------
 
 func TestTypeRoundTrip(t *testing.T) {
@@ -125,6 +139,18 @@ func TestTypeRoundTrip(t *testing.T) {
 		back := gtOf(rt)
 		if back.Coq() != g.Coq() {
 			t.Fatalf("case %d: gtOf(RType) differs\n%s\n%s", i, g.Coq(), back.Coq())
+		}
+		// a description survives JSON (the way arguments reach a worker process)
+		js, err := json.Marshal(g)
+		if err != nil {
+			t.Fatalf("case %d: marshal: %v", i, err)
+		}
+		var g2 GT
+		if err := json.Unmarshal(js, &g2); err != nil {
+			t.Fatalf("case %d: unmarshal: %v", i, err)
+		}
+		if g2.Coq() != g.Coq() || g2.RType() != rt {
+			t.Fatalf("case %d: JSON round trip changes the type\n%s\n%s", i, g.Coq(), g2.Coq())
 		}
 		if len(g.Fields) < 1 || len(g.Fields) > 8 {
 			t.Fatalf("case %d: %d fields", i, len(g.Fields))
